@@ -843,14 +843,19 @@ class BufferCheck(Check):
     def rule(self):
         base = ('cases = seeded timed programs of <= 8 actions on the grid around `timeout` '
                 '(call / await_ / map(list) / map(iterator) / amap with producer delays and failures, wait(cancel=True|False)), '
-                'scripted failures of the first six function invocations, function durations {0, T/4, 2T}; ')
+                'scripted failures of the first six function invocations (HarnessError / own CancelledError / TimeoutError), '
+                'function durations {0, T/4, 2T}, arguments that are exception instances; ')
         return base + {
             'C03': 'plus 0-2 foreign submitting threads under random/pct/stall schedules (asyncio debug mode in half of them); '
                    'non-trivial = >= 2 submissions and a retry after a failed call, a submission landing while the function runs, '
                    'a foreign-thread submission or a failing producer with a non-empty prefix; distinct = (program, baton moves)',
-            'C07': 'plus foreign submit-then-wait_from_anywhere threads, or a loop shutdown (cancel all tasks, gather, close) at a grid instant; '
+            'C07': 'plus foreign submit-then-wait_from_anywhere threads, or a loop shutdown (cancel all tasks, gather, close) at a grid instant '
+                   'and, for four short programs, at every yield point of the loop thread; bursts of 255-300 submissions; a function '
+                   'invocation begun after the shutdown started only ends by cancellation; '
                    'non-trivial = a wait() issued while something was undelivered, or a shutdown in a non-idle buffer state',
-            'C08': 'immediately available submissions only, no forced flush before the judged calls; '
+            'C08': 'immediately available submissions only, no forced flush before the judged calls; failing producers; the safety '
+                   'clauses are judged on unfinished executions too, never-twice-at-once / never-empty also on 6000 (quick) programs '
+                   'with foreign submitting threads; '
                    'non-trivial = a multi-arrival idle burst was judged (O4) or an arrival landed during a run/retry (O1-O3)',
         }[self.pid]
 
